@@ -20,7 +20,9 @@
  * outputs are cut at arbitrary places.  Every builder / file / iterator /
  * versions_apply stub may fail (VP_FAULTS), the database may be shut down in
  * the middle, a writer may hand over an immutable memtable in the middle
- * (VP_IMM), other threads publish sequence numbers and take / release
+ * (VP_IMM: the REAL ldb_compact_memtable, ldb_write_level0_table and
+ * ldb_remove_obsolete_files then run inside the loop, over stubs: the flush
+ * yields no table or fails; the flush obligations decide that code), other threads publish sequence numbers and take / release
  * snapshots whenever the mutex is free.
  *
  *   C01.c / C06.b  for EVERY sequence S >= smallest_snapshot (every live
@@ -173,7 +175,8 @@ static int g_addfile_n = 0;
 static uint64_t g_addfile_last = 0;
 static int g_apply_n = 0, g_apply_rc = LDB_OK;
 static int g_bg_broadcast = 0;
-static int g_flushes = 0, g_flush_wake_due = 0;
+static int g_flushes = 0, g_flush_wake_due = 0, g_in_flush = 0, g_flush_done = 0;
+static int g_flush_applies = 0, g_flush_builds = 0;
 static int64_t g_clock = 0;
 /* ghost copies of shared fields (written only under the mutex) */
 static int64_t gh_micros, gh_read, gh_written;
@@ -215,6 +218,14 @@ rb_set64_put(rb_tree_t *tree, uint64_t item) {
   int k, had = pend_has(item);
   VP_ASSERT(tree == &db.pending_outputs, "only pending_outputs is written by a compaction");
   VP_ASSERT(vp_mutex_held, "C13.c pending_outputs changes only under the mutex");
+#if VP_IMM
+  if (g_in_flush) {
+    VP_ASSERT(!pend_used[VP_N], "vp-model: one pending flush output");
+    pend_used[VP_N] = 1;
+    pend_val[VP_N] = item;
+    return !had;
+  }
+#endif
   VP_ASSERT(g_cur >= 0 && g_cur < VP_N, "vp-model: pending slot");
   for (k = 0; k < VP_N; k++) {
     if (k == g_cur) {
@@ -305,11 +316,12 @@ vp_on_lock(void) {
   env_act();
 #if VP_IMM
   /* the lock taken at the top of a loop iteration (before the entry's key is
-     read) because has_imm was seen: the flush runs in this critical section
-     (ldb_compact_memtable's body is removed, the flush obligations decide
-     it; its effect is applied at the broadcast that must follow) */
-  if (db.imm != NULL && g_in != NULL && !g_in_cleared && g_in->pos >= 0 && g_pos_seen == g_in->pos)
+     read) because has_imm was seen: the real ldb_compact_memtable runs now,
+     until the broadcast that must follow it */
+  if (db.imm != NULL && g_in != NULL && !g_in_cleared && g_in->pos >= 0 && g_pos_seen == g_in->pos) {
     g_flush_wake_due = 1;
+    g_in_flush = 1;
+  }
 #endif
 }
 
@@ -317,7 +329,7 @@ static void
 vp_on_unlock(void) {
   ghost_save();
   VP_ASSERT((db.imm != NULL) == (db.has_imm != 0), "has_imm mirrors imm");
-  VP_ASSERT(!g_flush_wake_due, "C09 imm seen by the compaction loop: writers waiting for room are woken (broadcast) before the mutex is released");
+
   env_act();
 }
 
@@ -332,16 +344,13 @@ vp_on_signal(ldb_cond_t *cv, int broadcast) {
   VP_ASSERT(cv == &db.background_work_finished_signal && broadcast, "writers waiting for room are woken by a broadcast");
   VP_ASSERT(vp_mutex_held, "broadcast under the mutex");
   g_bg_broadcast++;
-#if VP_IMM
-  if (g_flush_wake_due) {
+  /* the broadcast asked for is the one AFTER ldb_compact_memtable returned
+     (a failed flush broadcasts from ldb_record_background_error as well) */
+  if (g_flush_wake_due && g_flush_done) {
     g_flushes++;
-    if (vp_bool()) {           /* the flush succeeded */
-      db.imm = NULL;
-      db.has_imm = 0;
-    }
+    g_flush_wake_due = 0;
+    g_flush_done = 0;
   }
-#endif
-  g_flush_wake_due = 0;
 }
 
 /* ---- iterator model ------------------------------------------------------ */
@@ -418,6 +427,7 @@ vp_in_key(const void *p) {
   int i;
   VP_ASSERT(c->kind == 0 && c->pos >= 0 && c->pos < in_stop, "key() on a valid iterator (REQUIRES: valid)");
   VP_ASSERT(!vp_mutex_held, "input is read with the mutex released");
+  VP_ASSERT(!g_flush_wake_due, "C09 imm seen by the compaction loop: writers waiting for room are woken (broadcast) before the loop goes on");
   z.data = in_key[0];
   z.size = 9;
   z.alloc = 0;
@@ -553,6 +563,10 @@ ldb_versions_new_file_number(ldb_versions_t *v) {
   int pos = cur_pos(), k;
   VP_ASSERT(v == &vs, "numbers come from the version set");
   VP_ASSERT(vp_mutex_held, "C13.c file numbers are allocated under the mutex");
+#if VP_IMM
+  if (g_in_flush)
+    return v->next_file_number++;     /* the flush's level-0 table */
+#endif
   VP_ASSERT(pos >= 0 && pos < VP_N, "an output is opened while an input entry is being handled");
   VP_ASSERT(g_first_err == LDB_OK, "C02.g no further output is opened after an error");
   VP_ASSERT(g_cur < 0 || VP_CUR_COMPLETE,
@@ -813,6 +827,14 @@ ldb_edit_add_file(ldb_edit_t *edit, int level, uint64_t number, uint64_t file_si
 int
 ldb_versions_apply(ldb_versions_t *v, ldb_edit_t *edit, ldb_mutex_t *mu) {
   int k;
+#if VP_IMM
+  if (g_in_flush) {
+    int frc = vp_bool() ? LDB_OK : LDB_IOERR;
+    VP_ASSERT(v == &vs && edit != &comp.edit && mu == &db.mutex && vp_mutex_held, "the flush applies its own edit under the mutex");
+    g_flush_applies++;
+    return frc;
+  }
+#endif
   VP_ASSERT(v == &vs && edit == &comp.edit && mu == &db.mutex, "the compaction's edit is applied");
   VP_ASSERT(vp_mutex_held, "install under the mutex");
   VP_ASSERT(g_apply_n == 0 && g_deletions_n == 1, "one install, after the input deletions were added");
@@ -828,6 +850,63 @@ ldb_versions_apply(ldb_versions_t *v, ldb_edit_t *edit, ldb_mutex_t *mu) {
   note_err(g_apply_rc);
   return g_apply_rc;
 }
+
+#if VP_IMM
+/* ---- callees of the real ldb_compact_memtable / ldb_write_level0_table /
+ *      ldb_remove_obsolete_files (the flush itself is decided elsewhere: here
+ *      it either fails or finds the memtable empty, so no table is added) -- */
+static ldb_version_t ver_obj;
+void ldb_edit_init(ldb_edit_t *edit) { (void)edit; }
+void
+ldb_edit_clear(ldb_edit_t *edit) {
+  /* last statement of ldb_compact_memtable */
+  VP_ASSERT(edit != &comp.edit && g_in_flush && vp_mutex_held, "the flush ends under the mutex");
+  g_in_flush = 0;
+  g_flush_done = 1;
+}
+void ldb_edit_set_log_number(ldb_edit_t *edit, uint64_t num) { (void)edit; (void)num; }
+void ldb_edit_set_prev_log_number(ldb_edit_t *edit, uint64_t num) { (void)edit; (void)num; }
+void ldb_version_ref(ldb_version_t *v) { VP_ASSERT(v == &ver_obj && vp_mutex_held, "version pinned under the mutex"); v->refs++; }
+void ldb_version_unref(ldb_version_t *v) { VP_ASSERT(v == &ver_obj && vp_mutex_held && v->refs > 1, "version released under the mutex"); v->refs--; }
+void ldb_filemeta_init(ldb_filemeta_t *m) { m->number = 0; m->file_size = 0; }
+void ldb_filemeta_clear(ldb_filemeta_t *m) { (void)m; }
+const char *ldb_strerror(int code) { (void)code; return ""; }
+void ldb_memtable_unref(ldb_memtable_t *m) { VP_ASSERT(m == &imm_obj && vp_mutex_held, "imm released under the mutex"); m->refs--; }
+
+ldb_iter_t *
+ldb_memiter_create(const ldb_memtable_t *m) {
+  vp_cur_t *c = (vp_cur_t *)ldb_malloc(sizeof(vp_cur_t));
+  VP_ASSERT(m == &imm_obj && g_in_flush, "the flush iterates the immutable memtable");
+  c->kind = 2;
+  c->pos = -1;
+  g_vf_live++;
+  return ldb_iter_create(c, &vp_in_table, &db.internal_comparator);
+}
+
+int
+ldb_build_table(const char *dbname, const ldb_dbopt_t *options, ldb_tables_t *cache, ldb_iter_t *iter, ldb_filemeta_t *meta) {
+  int frc = vp_bool() ? LDB_OK : LDB_IOERR;
+  (void)iter;
+  VP_ASSERT(dbname == db.dbname && options == &db.options && cache == &tables_obj, "level-0 table built for this database");
+  VP_ASSERT(!vp_mutex_held && g_in_flush, "level-0 table built with the mutex released");
+  VP_ASSERT(pend_used[VP_N] && pend_val[VP_N] == meta->number, "C13.c the flush's output number is pending while the table is built");
+  g_flush_builds++;
+  meta->file_size = 0;     /* nothing to write (or failed): no file */
+  return frc;
+}
+
+void rb_tree_init(rb_tree_t *tree, rb_cmp_f *compare, void *arg) { (void)tree; (void)compare; (void)arg; }
+void rb_tree_clear(rb_tree_t *tree, rb_clear_f *clear) { (void)tree; (void)clear; }
+void rb_tree_copy(rb_tree_t *z, const rb_tree_t *x, rb_copy_f *copy) { (void)z; (void)x; (void)copy; }
+void ldb_versions_add_files(ldb_versions_t *v, rb_set64_t *live) { (void)v; (void)live; }
+
+int
+ldb_get_children(const char *path, char ***out) {
+  (void)path;
+  *out = NULL;
+  return 0;                /* empty listing: garbage collection is decided by C13.a */
+}
+#endif
 
 /* ---- reference --------------------------------------------------------- */
 /* newest entry of user key u with sequence <= s among the inputs (out == 0) or
@@ -876,6 +955,11 @@ harness(void) {
   db.shutting_down = 0;
   db.imm = NULL;
   db.has_imm = 0;
+#if VP_IMM
+  vs.current = &ver_obj;
+  ver_obj.refs = 1;
+  imm_obj.refs = 1;
+#endif
 
   /* another number is already pending (a flush's output, say) */
   pend_used[VP_N + 1] = vp_bool();
@@ -1010,7 +1094,7 @@ harness(void) {
       VP_ASSERT(db.stats[i].bytes_written == written, "bytes written == sum of the outputs' sizes, charged to level + 1");
       VP_ASSERT(db.stats[i].bytes_read == (int64_t)(in_file0.file_size + (comp.inputs[1].length ? in_file1.file_size : 0)),
                 "bytes read == sum of the input files' sizes");
-    } else {
+    } else if (!(VP_IMM && i == 0)) {   /* (a flush charges its time to level 0) */
       VP_ASSERT(db.stats[i].bytes_written == 0 && db.stats[i].bytes_read == 0 && db.stats[i].micros == 0, "other levels' statistics untouched");
     }
   }
@@ -1106,6 +1190,8 @@ harness(void) {
   if (g_apply_n == 1 && g_apply_rc != LDB_OK) VP_WITNESS("install-failed");
 #endif
 #if VP_IMM
-  if (g_flushes > 0 && rc == LDB_OK) VP_WITNESS("imm-flushed-in-the-middle");
+  VP_ASSERT(g_flushes == 0 || (g_flush_builds >= 1 && ver_obj.refs == 1), "the flush ran through the real ldb_compact_memtable");
+  if (g_flushes > 0 && db.imm == NULL && rc == LDB_OK) VP_WITNESS("imm-flushed-in-the-middle");
+  if (g_flushes > 0 && db.imm != NULL && g_outputs > 0 && g_apply_n == 1) VP_WITNESS("imm-flush-failed-compaction-went-on");
 #endif
 }
